@@ -43,7 +43,9 @@ def o1_sender(ctx, lx, ld, n, frag, fail):
             uids.append(pkt.uid)
         return True if fail_at is None else s_not(fail_at == uids.index(pkt.uid))
     radio.link = ScriptedLink(acks, by_packet=True)
-    mtype = ctx.int("type", 0, 64)  # user types that never wait for a NETWORK_ACK (C13 covers the others)
+    # user types; those that would await a NETWORK_ACK only between direct neighbours (C13 covers the waiting)
+    mtype = ctx.int("type", 0, 127)
+    ctx.assume(s_or(mtype <= 64, NS.next_hop(x, d) == d))
     msg = ctx.bytes("msg", n)
     h = RF24NetworkHeader(d, mtype)
     fid = ctx.int("frame_id", 0, 0xFFFF)
